@@ -841,6 +841,7 @@ func c05GenCase(r *vh.Rand, nulls bool) c05In {
 		return &o
 	}
 	n := r.Range(8, 32)
+	var notices []c05Op
 	// a start that creates something to work on
 	ops = append(ops, c05Op{K: "newchange", S: r.Pick(c05Strings), S2: r.Pick(c05Strings), N: off()})
 	for i := 0; i < r.Range(1, 4); i++ {
@@ -897,7 +898,7 @@ func c05GenCase(r *vh.Rand, nulls bool) c05In {
 			ops = append(ops, c05Op{K: "settowait", A: a, St: []int{4, 8, 3, 2, 9}[r.Intn(5)], N: off()})
 		case 22:
 			ops = append(ops, c05Op{K: "chgsetstatus", A: a, St: r.Intn(10), N: off()})
-		case 23, 24:
+		case 23, 24, 29:
 			o := c05Op{K: "addnotice", S: r.Pick(c05NoticeTypes), S2: r.Pick([]string{"1", "2", "3", "-", "key", "x y", ""}),
 				N2: []int64{0, 0, c05Hour / 2, 2 * c05Hour, 48 * c05Hour}[r.Intn(5)], T: optOff(), N: off()}
 			if o.S == "refresh-inhibit" && r.Chance(3, 4) {
@@ -907,6 +908,23 @@ func c05GenCase(r *vh.Rand, nulls bool) c05In {
 				u := uint32(r.Intn(3) * 1000)
 				o.Uid = &u
 			}
+			// most notices come from a small pool of (user, type, key) so that the same notice recurs - also across reloads -
+			// and so that the public and the uid-0 (and uid-1000) notice of one (type, key) exist side by side
+			if r.Chance(3, 4) {
+				o.S = []string{"warning", "change-update", "snap-run-inhibit"}[r.Intn(3)]
+				o.S2 = []string{"1", "2"}[r.Intn(2)]
+				o.Uid = nil
+				if k := r.Intn(3); k > 0 {
+					u := uint32((k - 1) * 1000)
+					o.Uid = &u
+				}
+				o.N = int64(r.Range(-5, 5))*c05Hour + int64(r.Intn(1000)) // recent: still there after a reload
+				prev = o.N
+				if r.Chance(3, 4) {
+					o.T = nil
+				}
+			}
+			notices = append(notices, o)
 			if r.Chance(1, 2) {
 				o.Data = map[string]string{r.Pick(c05Strings): r.Pick(c05Strings)}
 				if r.Chance(1, 3) {
@@ -930,6 +948,23 @@ func c05GenCase(r *vh.Rand, nulls bool) c05In {
 		ops = append(ops, c05Op{K: "reload"}, c05Op{K: "newchange", S: "z", S2: "y", N: off()},
 			c05Op{K: "newtask", S: "z", S2: "y", N: off()}, c05Op{K: "newlane"},
 			c05Op{K: "addnotice", S: "warning", S2: "f" + strconv.Itoa(r.Intn(100)), N: off()})
+		// the notices recorded before the reload occur again after it (same user, type and key): they must bump the existing
+		// notice, not create a second one; and the same (type, key) for the other kinds of user
+		for i := 0; i < len(notices) && i < 3; i++ {
+			o := notices[r.Intn(len(notices))]
+			o.N, o.T, o.N2 = int64(r.Range(6, 9))*c05Hour+int64(r.Intn(1000)), nil, 0
+			ops = append(ops, o)
+			if r.Chance(1, 2) {
+				o2 := o
+				o2.Uid = nil
+				if o.Uid == nil {
+					u := uint32(0)
+					o2.Uid = &u
+				}
+				o2.N = o.N + 5
+				ops = append(ops, o2)
+			}
+		}
 	}
 	return c05In{Ops: ops}
 }
